@@ -1,0 +1,101 @@
+//go:build verif
+// +build verif
+
+// Contracts for the verification machinery in /verif (comment-only; compiled only with -tags verif).
+package position
+
+// The four boundary helpers the Builder functions are made of (C05): a nil node, a node without
+// a Position and an empty or nil list give -1; otherwise the start comes from the (first) node's
+// own Position and the end from the (last) node's.
+
+//@ func getNodeStartPos
+//@   ensures n == nil ==> (result.startLine == -1 && result.startPos == -1)
+//@   ensures (n != nil && posof(n) == nil) ==> (result.startLine == -1 && result.startPos == -1)
+//@   ensures (n != nil && posof(n) != nil) ==> (result.startLine == posof(n).StartLine && result.startPos == posof(n).StartPos)
+//@   modifies nothing
+//@   props C05, C01
+
+//@ func getNodeEndPos
+//@   ensures n == nil ==> (result.endLine == -1 && result.endPos == -1)
+//@   ensures (n != nil && posof(n) == nil) ==> (result.endLine == -1 && result.endPos == -1)
+//@   ensures (n != nil && posof(n) != nil) ==> (result.endLine == posof(n).EndLine && result.endPos == posof(n).EndPos)
+//@   modifies nothing
+//@   props C05, C01
+
+//@ func getListStartPos
+//@   ensures len(l) == 0 ==> (result.startLine == -1 && result.startPos == -1)
+//@   ensures (len(l) > 0 && l[0] == nil) ==> (result.startLine == -1 && result.startPos == -1)
+//@   ensures (len(l) > 0 && l[0] != nil && posof(l[0]) == nil) ==> (result.startLine == -1 && result.startPos == -1)
+//@   ensures (len(l) > 0 && l[0] != nil && posof(l[0]) != nil) ==> (result.startLine == posof(l[0]).StartLine && result.startPos == posof(l[0]).StartPos)
+//@   modifies nothing
+//@   props C05, C01
+
+//@ func getListEndPos
+//@   ensures len(l) == 0 ==> (result.endLine == -1 && result.endPos == -1)
+//@   ensures (len(l) > 0 && l[len(l) - 1] == nil) ==> (result.endLine == -1 && result.endPos == -1)
+//@   ensures (len(l) > 0 && l[len(l) - 1] != nil && posof(l[len(l) - 1]) == nil) ==> (result.endLine == -1 && result.endPos == -1)
+//@   ensures (len(l) > 0 && l[len(l) - 1] != nil && posof(l[len(l) - 1]) != nil) ==> (result.endLine == posof(l[len(l) - 1]).EndLine && result.endPos == posof(l[len(l) - 1]).EndPos)
+//@   modifies nothing
+//@   props C05, C01
+
+//@ func NewBuilder
+//@   ensures result != nil && fresh(result) && result.pool != nil && len(result.pool.block) >= 1 && poolwf(result.pool)
+//@   modifies nothing
+//@   props C05, C01
+
+// A builder function needs non-nil tokens with positions (the grammar passes terminals and tokens
+// the lexer has positioned); it returns a fresh position. Which boundary fills which field is
+// read off the functions' traces by the grammar-action engine.
+//@ pred builderwf(b) := b != nil && b.pool != nil && len(b.pool.block) >= 1 && poolwf(b.pool)
+//@ pred tokpos(t) := t != nil && t.Position != nil
+
+//@ func (*Builder).NewNodeListPosition
+//@   requires builderwf(b)
+//@   ensures result != nil && !old(b.pool.issued)[result] && builderwf(b)
+//@   props C05, C01
+//@ func (*Builder).NewNodePosition
+//@   requires builderwf(b)
+//@   ensures result != nil && !old(b.pool.issued)[result] && builderwf(b)
+//@   props C05, C01
+//@ func (*Builder).NewTokenPosition
+//@   requires builderwf(b) && tokpos(t)
+//@   ensures result != nil && !old(b.pool.issued)[result] && builderwf(b)
+//@   ensures result.StartPos == t.Position.StartPos && result.EndPos == t.Position.EndPos && result.StartLine == t.Position.StartLine && result.EndLine == t.Position.EndLine
+//@   props C05, C01
+//@ func (*Builder).NewTokensPosition
+//@   requires builderwf(b) && tokpos(startToken) && tokpos(endToken)
+//@   ensures result != nil && !old(b.pool.issued)[result] && builderwf(b)
+//@   ensures result.StartPos == startToken.Position.StartPos && result.EndPos == endToken.Position.EndPos && result.StartLine == startToken.Position.StartLine && result.EndLine == endToken.Position.EndLine
+//@   props C05, C01
+//@ func (*Builder).NewTokenNodePosition
+//@   requires builderwf(b) && tokpos(t)
+//@   ensures result != nil && !old(b.pool.issued)[result] && builderwf(b)
+//@   props C05, C01
+//@ func (*Builder).NewNodeTokenPosition
+//@   requires builderwf(b) && tokpos(t)
+//@   ensures result != nil && !old(b.pool.issued)[result] && builderwf(b)
+//@   props C05, C01
+//@ func (*Builder).NewNodesPosition
+//@   requires builderwf(b)
+//@   ensures result != nil && !old(b.pool.issued)[result] && builderwf(b)
+//@   props C05, C01
+//@ func (*Builder).NewNodeListTokenPosition
+//@   requires builderwf(b) && tokpos(t)
+//@   ensures result != nil && !old(b.pool.issued)[result] && builderwf(b)
+//@   props C05, C01
+//@ func (*Builder).NewTokenNodeListPosition
+//@   requires builderwf(b) && tokpos(t)
+//@   ensures result != nil && !old(b.pool.issued)[result] && builderwf(b)
+//@   props C05, C01
+//@ func (*Builder).NewNodeNodeListPosition
+//@   requires builderwf(b)
+//@   ensures result != nil && !old(b.pool.issued)[result] && builderwf(b)
+//@   props C05, C01
+//@ func (*Builder).NewNodeListNodePosition
+//@   requires builderwf(b)
+//@   ensures result != nil && !old(b.pool.issued)[result] && builderwf(b)
+//@   props C05, C01
+//@ func (*Builder).NewOptionalListTokensPosition
+//@   requires builderwf(b) && tokpos(t) && tokpos(endToken)
+//@   ensures result != nil && !old(b.pool.issued)[result] && builderwf(b)
+//@   props C05, C01
